@@ -59,7 +59,10 @@ impl Counter32 {
     #[verifier::external_body]
     pub fn fetch_sub(&mut self, n: u32) -> (r: u32) ensures r == old(self).v, final(self).v == wrap32(old(self).v - n), { unimplemented!() }
     pub fn load(&self) -> (r: u32) ensures r == self.v { self.v }
+    pub fn store(&mut self, n: u32) ensures final(self).v == n { self.v = n; }
 }
+// the partition a cursor value stands for when the topic has n partitions (Topic::get_next_partition_id wraps a cursor past n to 1)
+pub open spec fn cursor_norm(c: u32, n: nat) -> int { if c > n { 1 } else { c as int } }
 impl Clone for Counter32 { #[verifier::external_body] fn clone(&self) -> (r: Self) ensures r == *self { unimplemented!() } }
 pub struct Counter64 { pub v: u64 }
 impl Counter64 {
